@@ -127,6 +127,17 @@ Theorem C18_modulemeta_defs : forall defs,
 Proof. exact modulemeta_defs_sorted. Qed.
 Print Assumptions C18_modulemeta_defs.
 
+(* the order is: name bytewise, then arity NUMERICALLY (f/2 before f/10; f before f1 before f_) *)
+Theorem C18_modulemeta_order : forall n1 a1 n2 a2,
+  na_less (n1, a1) (n2, a2) = true <-> bytes_ltb n1 n2 = true \/ (n1 = n2 /\ (a1 < a2)%N).
+Proof. exact na_less_spec. Qed.
+Print Assumptions C18_modulemeta_order.
+
+Example C18_modulemeta_numeric :
+  list_module_defs [([102], 10); ([102; 95], 0); ([102], 2); ([102; 49], 0); ([95; 102], 1); ([102], 30); ([102], 9)]
+  = [([102], 2); ([102], 9); ([102], 10); ([102], 30); ([102; 49], 0); ([102; 95], 0)].
+Proof. vm_compute. reflexivity. Qed.
+
 (* non-vacuity: a tree with a diamond, a clash and an include where the closed hypothesis holds *)
 Example C18_nonvacuous :
   let c := Mod INil [{| d_name := 1; d_ar := 0; d_id := 30; d_calls := [] |};
